@@ -810,7 +810,8 @@ impl OutstationSession {
             }
             FragmentType::Broadcast(mode) => {
                 self.state.deferred_read.clear();
-                self.process_broadcast(info.id, database, mode, request)
+                let action = self
+                    .process_broadcast(info.id, database, mode, request)
                     .await;
                 self.state.last_valid_request = Some(LastValidRequest::new(
                     request.header.control.seq,
@@ -818,6 +819,16 @@ impl OutstationSession {
                     None,
                     None,
                 ));
+
+                // Cancel unsolicited series if it's a DISABLE_UNSOLICITED, just like the unicast request
+                if request.header.function == FunctionCode::DisableUnsolicited
+                    && action == BroadcastAction::Processed
+                {
+                    return Ok(UnsolicitedWaitResult::Complete(
+                        UnsolicitedResult::ReturnToIdle,
+                    ));
+                }
+
                 Ok(UnsolicitedWaitResult::ReadNext)
             }
             FragmentType::MalformedRequest(_, err) => {
@@ -1981,7 +1992,7 @@ impl OutstationSession {
         database: &mut DatabaseHandle,
         mode: BroadcastConfirmMode,
         request: Request<'_>,
-    ) {
+    ) -> BroadcastAction {
         self.state.last_broadcast_type = Some(mode);
         self.state.broadcast_reported_sol = None;
         self.state.broadcast_reported_unsol = None;
@@ -1989,7 +2000,8 @@ impl OutstationSession {
             .process_broadcast_get_action(frame_id, database, request)
             .await;
         self.info
-            .broadcast_received(request.header.function, action)
+            .broadcast_received(request.header.function, action);
+        action
     }
 
     async fn process_broadcast_get_action(
